@@ -1,4 +1,4 @@
 From Coq Require Import Extraction ExtrOcamlBasic.
 From PV Require Import Lib.ExtBase C08.Model.
 Extraction "model.ml" ext_base_z ext_base_n ext_base_nat ext_base_res ext_base_list
-  depth_exceeded page_number prev_chain sibling_list guarded_descent indexed_ok buf_to_int64 read_length is_indef_term detect_marker post_process_params predictor_row_params.
+  depth_exceeded page_number prev_chain sibling_list guarded_descent indexed_ok buf_to_int64 read_length is_indef_term detect_marker post_process_params predictor_row_params cmap4_layout.
